@@ -112,6 +112,12 @@ pub fn prange(case: &Case, eff: &mut Eff, f: impl FnOnce(ParEmpty<<std::ops::Ran
     f((1usize..case.input.len() + 1).into_par())
 }
 
+/// `1..usize::MAX`: a range used as an unbounded source (its end is the largest usize)
+pub fn prangemax(case: &Case, eff: &mut Eff, f: impl FnOnce(ParEmpty<<std::ops::Range<usize> as IntoPar>::ConIter>) -> R) -> R {
+    *eff = (0..64).map(|p| crate::source::src_elem(&case.input, p)).collect();
+    f((1usize..usize::MAX).into_par())
+}
+
 pub fn piter(case: &Case, eff: &mut Eff, f: impl FnOnce(ParEmpty<<LogIter as IterIntoPar<LogIter>>::ConIter>) -> R) -> R {
     *eff = elems_of_iter(case);
     f(LogIter::new(&case.input, case.known, case.endless).par())
@@ -279,7 +285,12 @@ pub fn pconrange(case: &Case, eff: &mut Eff, f: impl FnOnce(ParEmpty<ConIterOfRa
 
 /// number of elements taken from a concurrent iterator before it is turned into a computation
 fn pre_taken(n: usize) -> usize {
-    (1 + n % 2).min(n)
+    // short inputs: 1-2 elements; long inputs: a third (positions of the last third exceed the remaining length)
+    if n >= 20 {
+        n / 3
+    } else {
+        (1 + n % 2).min(n)
+    }
 }
 
 pub fn pconvecpre(case: &Case, eff: &mut Eff, f: impl FnOnce(ParEmpty<ConIterOfVec<Tok>>) -> R) -> R {
